@@ -14,15 +14,31 @@ import (
 
 var ErrCrashed = errors.New("faultfs: process crashed")
 
+// ErrIO is what a read-side call answers once ReadFailAfter reads have gone through: a storage
+// that stops answering (the process lives on and must report the failure properly).
+var ErrIO = errors.New("faultfs: input/output error")
+
 type Fs struct {
 	Inner   afero.Fs
 	CrashAt int // crash at the CrashAt-th mutating call (0-based); <0 = never
 	Count   int // mutating calls seen so far
 	Dead    bool
 	Log     []string
+	// ReadFailAfter >= 0: the read-side calls (Stat, Open, read-only OpenFile) after the first
+	// ReadFailAfter of them fail with ErrIO; < 0: never
+	ReadFailAfter int
+	Reads         int
 }
 
-func New(inner afero.Fs) *Fs { return &Fs{Inner: inner, CrashAt: -1} }
+func (f *Fs) readFault() bool {
+	if f.ReadFailAfter < 0 {
+		return false
+	}
+	f.Reads++
+	return f.Reads > f.ReadFailAfter
+}
+
+func New(inner afero.Fs) *Fs { return &Fs{Inner: inner, CrashAt: -1, ReadFailAfter: -1} }
 
 // step registers a mutating call; returns true if the call must not happen (crash)
 func (f *Fs) step(what string) bool {
@@ -77,6 +93,9 @@ func (f *Fs) Open(name string) (afero.File, error) {
 	if f.Dead {
 		return nil, ErrCrashed
 	}
+	if f.readFault() {
+		return nil, ErrIO
+	}
 	file, err := f.Inner.Open(name)
 	if err != nil {
 		return nil, err
@@ -91,6 +110,8 @@ func (f *Fs) OpenFile(name string, flag int, perm os.FileMode) (afero.File, erro
 		}
 	} else if f.Dead {
 		return nil, ErrCrashed
+	} else if f.readFault() {
+		return nil, ErrIO
 	}
 	file, err := f.Inner.OpenFile(name, flag, perm)
 	if err != nil {
@@ -123,6 +144,9 @@ func (f *Fs) Rename(oldname, newname string) error {
 func (f *Fs) Stat(name string) (os.FileInfo, error) {
 	if f.Dead {
 		return nil, ErrCrashed
+	}
+	if f.readFault() {
+		return nil, ErrIO
 	}
 	return f.Inner.Stat(name)
 }
